@@ -303,11 +303,11 @@ def O3w(b):
 # =============================================================================================== O2a
 @harness('O2a', targets='kopf._core.reactor.orchestration.adjust_tasks',
          props=['C01', 'C19', 'C13', 'C17', 'C03', 'C20', 'C09'],
-         prop_clauses={'C13': ['pause_toggle_follows_the_peering_crd', 'peering_spawned_for_the_found_peering_resources', 'arguments_passed_on'],
+         prop_clauses={'C13': ['pause_toggle_follows_the_peering_crd', 'peering_spawned_for_the_found_peering_resources', 'arguments_passed_on', 'peerings_before_watchers'],
                        'C17': ['stop_first_start_later', 'arguments_passed_on'],
                        'C03': ['stop_first_start_later', 'arguments_passed_on'],
                        'C20': ['stop_first_start_later'], 'C09': ['stop_first_start_later', 'arguments_passed_on']},
-         clauses=['stop_first_start_later', 'keeps_what_is_still_served', 'peering_spawned_for_the_found_peering_resources',
+         clauses=['stop_first_start_later', 'peerings_before_watchers', 'keeps_what_is_still_served', 'peering_spawned_for_the_found_peering_resources',
                   'pause_toggle_follows_the_peering_crd', 'arguments_passed_on'],
          canaries=['canary.always_peering', 'canary.always_paused'],
          trusted=['terminate_redundancies by contract O2t (stops and forgets exactly the streams outside remaining_resources x '
@@ -323,6 +323,11 @@ def O2a(vc):
                                called.  A stream over a resource or namespace that is no longer served and a new stream can show the
                                same objects (a CRD that switches its served version keeps the uids; a namespace selector that
                                changes): started the other way round, one object has two workers at once (C01 "processed serially");
+      peerings_before_watchers  spawn_missing_peerings has RETURNED before spawn_missing_watchers is called: it makes the per-namespace
+                               conflict toggles inside operator_paused -- switched ON from the start when peering is mandatory -- and a
+                               new resource stream looks at the pause gate at its first step; started the other way round the stream
+                               passes the gate and LISTS (and its objects are handled) before the operator has looked at its peers
+                               (C19 "while paused nothing is listed or watched"; C13 "exactly the top one is active", every order of starts);
       keeps_what_is_still_served  the terminator is told to keep exactly the watched resources plus the peering resources found, over the
                                served namespaces plus None (cluster-scoped streams);
       peering_spawned_for_the_found_peering_resources  spawn_missing_peerings gets exactly the peering resources that the backbone knows for the
@@ -375,6 +380,8 @@ def O2a(vc):
     # -- ordering
     ok = all(names.count(n) == 1 for n in ('terminate', 'terminate.returned', 'spawn_peerings', 'spawn_watchers'))
     vc.ensure('stop_first_start_later', ok and idx('terminate.returned') < idx('spawn_peerings') and idx('terminate.returned') < idx('spawn_watchers'))
+    # -- the peering toggles exist (pre-activated when peering is mandatory) before any resource stream can take its first step
+    vc.ensure('peerings_before_watchers', names.count('spawn_peerings.returned') == 1 and idx('spawn_peerings.returned') < idx('spawn_watchers'))
     # -- the pause toggle
     turns = [e for e in tr if e[0] == 'turn_to']
     vc.ensure('pause_toggle_follows_the_peering_crd', len(turns) == 1 and names.index('turn_to') < min(idx('spawn_peerings'), idx('spawn_watchers')))
